@@ -138,6 +138,8 @@ class Instrs(CallsMixin):
         cx.prove(st, cond_ok, name, 'panic', pos, what, assume_after=True)
 
     def explicit_panic(self, st, fr, ins):
+        if self.cx.path_feasible():
+            self.cx.mark_covered(st)
         self.panic_check(st, fr, ins, z3.BoolVal(False), 'explicit')
         self.cx.npaths += 1
 
@@ -841,7 +843,12 @@ class Instrs(CallsMixin):
                         add(t, t[3] if len(t) > 3 else None)
                 elif op == 'MapUpdate':
                     mt = types.under(ins['map']['type'])
-                    add(('map', mt, ()), None)
+                    base = None
+                    if self.defined_outside(fr, ins['map'], body):
+                        mv = self.operand(st, fr, ins['map'])
+                        if mv.lv is not None:
+                            base = mv.term
+                    add(('map', mt, ()), base)
                 elif op in ('Call', 'Defer'):
                     w = self.call_writes(st, fr, ins, body)
                     if w == 'all':
@@ -887,6 +894,29 @@ class Instrs(CallsMixin):
         """candidate bounds for counting loops; each is (name, fn(state) -> formula)"""
         out = []
         cfg = fr.cfg
+        # candidate frame: memory that existed before the loop is not written by appends/fresh stores
+        w = self.loop_writes(st, fr, h)
+        if w != 'all':
+            F = st.frontier
+            for pk, refs in w.items():
+                if refs is not None or pk[0] != 'elems':
+                    continue
+                try:
+                    for (lp, ls, role) in self.types.leaves(pk[1]):
+                        if (('[]',) + lp)[:len(pk[2])] == pk[2]:
+                            st.region('elems', pk[1], ('[]',) + lp, ('A', ls))
+                except Exception:
+                    pass
+                for key in list(st.heap.r.keys()):
+                    if key[0] == pk[0] and key[1] == pk[1] and key[2][:len(pk[2])] == pk[2]:
+                        pre = st.heap.r[key]
+                        sd = st.heap.sorts[key]
+
+                        def frame0(s, key=key, pre=pre, sd=sd):
+                            cur = s.heap.get(key, sd, s.alloc0)
+                            r = z3.Int('fr@r')
+                            return z3.ForAll([r], z3.Implies(z3.And(r >= 0, r <= s.alloc0), z3.Select(cur, r) == z3.Select(pre, r)))
+                        out.append(('oldmem0.%s' % (str(abs(hash(key)) % 100000)), frame0, {'key': key, 'pre': pre, 'F': st.alloc0}))
         body = cfg.loops[h]
         blk = cfg.blocks[h]
         for ins in phis:
@@ -921,7 +951,7 @@ class Instrs(CallsMixin):
 
             def lower(s, name=name, initv=initv, step=step):
                 return (s.regs[name].term >= initv) if step > 0 else (s.regs[name].term <= initv)
-            out.append(('%s.monotone' % name, lower))
+            out.append(('%s.monotone' % name, lower, None))
             if bound is not None:
                 kind, bo = bound
                 if self.defined_outside(fr, bo, body):
@@ -940,7 +970,7 @@ class Instrs(CallsMixin):
                         if kind == 'ge':
                             return x >= z3.If(bv - 1 <= initv, bv - 1, initv)
                         return z3.BoolVal(True)
-                    out.append(('%s.bound' % name, upper))
+                    out.append(('%s.bound' % name, upper, None))
         return out
 
     def find_bound(self, fr, h, name, step, body):
